@@ -1,6 +1,173 @@
-"""Bounded TLA+ models (spec -> impl direction).  Filled in per property."""
+"""Bounded TLA+ models (spec -> impl direction): TLC enumerates the model, checks the property's
+statement on the specification itself, and every emitted transition is replayed on the real code."""
+import json
+import os
+import re
+import shutil
+import subprocess
+import threading
+import time
+
+import checklib
+
+# property -> (module, NEXT, INVARIANT, {tier: constants})
+FUN_MODELS = {
+    "C01": ("MCFun", "Next_C01", "Inv_C01", {"quick": (5, 5), "thorough": (7, 8)}),
+    "C02": ("MCFun", "Next_C02", "Inv_C02", {"quick": (5, 6), "thorough": (7, 8)}),
+    "C04": ("MCFun", "Next_C04", "Inv_C04", {"quick": (5, 6), "thorough": (8, 9)}),
+    "C05": ("MCFun", "Next_C05", "Inv_C05", {"quick": (8, 0), "thorough": (11, 0)}),
+    "C06": ("MCFun", "Next_C06", "Inv_C06", {"quick": (8, 0), "thorough": (11, 0)}),
+    "C07": ("MCFun", "Next_C07", "Inv_C07", {"quick": (4, 2), "thorough": (6, 3)}),
+    "C08": ("MCFun", "Next_C08", "Inv_C08", {"quick": (7, 0), "thorough": (10, 0)}),
+    "C09": ("MCFun", "Next_C09", "Inv_C09", {"quick": (5, 5), "thorough": (7, 7)}),
+    "C11": ("MCFun", "Next_C11", "Inv_C11", {"quick": (8, 0), "thorough": (10, 0)}),
+    "C12": ("MCFun", "Next_C12", "Inv_C12", {"quick": (8, 0), "thorough": (10, 0)}),
+    "C13": ("MCFun", "Next_C13", "Inv_C13", {"quick": (8, 0), "thorough": (10, 0)}),
+    "C14": ("MCFun", "Next_C14", "Inv_C14", {"quick": (5, 0), "thorough": (8, 0)}),
+    "C15": ("MCFun", "Next_C15", "Inv_C15", {"quick": (6, 3), "thorough": (8, 4)}),
+    "C16": ("MCFun", "Next_C16", "Inv_C16", {"quick": (9, 0), "thorough": (12, 0)}),
+    "C19": ("MCFun", "Next_C19", "Inv_C19", {"quick": (0, 0), "thorough": (0, 0)}),
+    "C20": ("MCFun", "Next_C20", "Inv_C20", {"quick": (4, 4), "thorough": (5, 5)}),
+}
+
+
+def cfg_text(nxt, inv, ls, lo):
+    return ("INIT MCInit\nNEXT %s\nINVARIANT %s\nCONSTANTS\n  Ls = %d\n  Lo = %d\nCHECK_DEADLOCK FALSE\n" % (nxt, inv, ls, lo))
+
+
+def write_cfgs():
+    """(re)generate spec/cfg/MC_<PROP>_<tier>.cfg from the table above"""
+    d = os.path.join(checklib.SPEC, "cfg")
+    os.makedirs(d, exist_ok=True)
+    for prop, (mod, nxt, inv, tiers) in FUN_MODELS.items():
+        for tier, (ls, lo) in tiers.items():
+            with open(os.path.join(d, "MC_%s_%s.cfg" % (prop, tier)), "w") as f:
+                f.write(cfg_text(nxt, inv, ls, lo))
+
+
+def run_fun_model(prop, tier, bins, workdir, timeout_s):
+    mod, nxt, inv, tiers = FUN_MODELS[prop]
+    cfg = os.path.join(checklib.SPEC, "cfg", "MC_%s_%s.cfg" % (prop, tier))
+    if not os.path.exists(cfg):
+        write_cfgs()
+    md = os.path.join(workdir, "mc.md")
+    shutil.rmtree(md, ignore_errors=True)
+    cmd = checklib.tlc_cmd(12, "8g") + ["-metadir", md, "-cleanup", "-noGenerateSpecTE", "-config", cfg, mod + ".tla"]
+    res = {"name": "%s/%s %s Ls=%d Lo=%d" % (mod, nxt, tier, tiers[tier][0], tiers[tier][1]), "states": 0, "transitions": 0,
+           "violations": [], "tool_errors": [], "replayed": 0, "replay_execs": 0, "samples": [], "distinct": 0, "exhaustive": True}
+    t0 = time.time()
+    tlc = subprocess.Popen(cmd, cwd=checklib.SPEC, stdout=subprocess.PIPE, stderr=subprocess.STDOUT, text=True, bufsize=1 << 20)
+    reps = {}
+    for prof, b in bins.items():
+        reps[prof] = subprocess.Popen([b, "replay", prop, "--max-fail", "40"], stdin=subprocess.PIPE, stdout=subprocess.PIPE,
+                                      stderr=subprocess.PIPE, text=True, bufsize=1 << 20)
+    outs = {}
+
+    def collect(prof, p):
+        outs[prof] = p.stdout.read()
+    readers = [threading.Thread(target=collect, args=(prof, p)) for prof, p in reps.items()]
+    for th in readers:
+        th.start()
+    other = []
+    emitted = 0
+    killer = threading.Timer(timeout_s, tlc.kill)
+    killer.start()
+    try:
+        for line in tlc.stdout:
+            if line.startswith('"{'):
+                emitted += 1
+                for p in reps.values():
+                    try:
+                        p.stdin.write(line)
+                    except BrokenPipeError:
+                        pass
+            else:
+                other.append(line)
+    finally:
+        killer.cancel()
+    tlc.wait()
+    for p in reps.values():
+        try:
+            p.stdin.close()
+        except BrokenPipeError:
+            pass
+    for th in readers:
+        th.join()
+    for p in reps.values():
+        p.wait()
+    shutil.rmtree(md, ignore_errors=True)
+    text = "".join(other)
+    m = re.search(r"(\d+) states generated, (\d+) distinct states found", text)
+    if m:
+        res["transitions"] = int(m.group(1))
+        res["states"] = int(m.group(2))
+    complete = "Model checking completed. No error has been found." in text
+    if not complete:
+        tail = "\n".join(l for l in text.splitlines() if not re.match(r"^(Parsing|Semantic|Linting|Picked up)", l))[-2500:]
+        if "Invariant" in text and "is violated" in text:
+            res["tool_errors"].append("the SPECIFICATION violates the property statement %s (specification bug, not a code violation):\n%s" % (inv, tail))
+        else:
+            res["tool_errors"].append("TLC did not complete %s:\n%s" % (res["name"], tail))
+        res["exhaustive"] = False
+    res["emitted"] = emitted
+    for prof, p in reps.items():
+        if p.returncode != 0:
+            res["tool_errors"].append("replay (%s) failed with exit %s: %s" % (prof, p.returncode, p.stderr.read()[-1500:]))
+            continue
+        summ = None
+        for line in outs.get(prof, "").splitlines():
+            try:
+                rec = json.loads(line)
+            except Exception:
+                continue
+            if rec.get("k") == "FAIL":
+                res["violations"].append({"profile": prof, "shard": "replay:" + res["name"], "line": 0, "event": rec["event"],
+                                          "complaints": rec["complaints"], "expected": rec["expected"], "prefix": [],
+                                          "spec_event": rec.get("spec_event")})
+            elif rec.get("k") == "REPLAY-SUMMARY":
+                summ = rec
+        if not summ:
+            res["tool_errors"].append("replay (%s) printed no summary" % prof)
+            continue
+        if summ["transitions"] != emitted:
+            res["tool_errors"].append("replay (%s) consumed %d of %d emitted transitions" % (prof, summ["transitions"], emitted))
+        res["replayed"] += summ["transitions"]
+        res["replay_execs"] += summ["execs"]
+        res["distinct"] = max(res["distinct"], summ["distinct_nontrivial"])
+        res["samples"].extend(summ["samples"][:1])
+        if summ["fails"] > 40:
+            res["more_fails_" + prof] = summ["fails"]
+    if any("SPECIFICATION violates" in e for e in res["tool_errors"]):
+        res["violations"] = []   # expected values from a specification that fails its own property are not believed
+    checklib.log("[mc] %s: %d states, %d transitions emitted, replayed in %s, %.1fs" % (
+        res["name"], res["states"], emitted, "+".join(bins.keys()), time.time() - t0))
+    return res
 
 
 def run_models(prop, tier, seed, bins, workdir):
-    return {"states": 0, "transitions": 0, "models": [], "violations": [], "tool_errors": [], "replayed": 0,
-            "replay_execs": 0, "samples": [], "distinct": 0, "exhaustive": False}
+    total = {"states": 0, "transitions": 0, "models": [], "violations": [], "tool_errors": [], "replayed": 0,
+             "replay_execs": 0, "samples": [], "distinct": 0, "exhaustive": False}
+    runs = []
+    if prop in FUN_MODELS:
+        runs.append(run_fun_model(prop, tier, bins, workdir, 1200 if tier == "quick" else 7200))
+    try:
+        import mchist
+        runs.extend(mchist.run(prop, tier, seed, bins, workdir))
+    except ImportError:
+        pass
+    for r in runs:
+        total["states"] += r["states"]
+        total["transitions"] += r["transitions"]
+        total["models"].append({k: r[k] for k in ("name", "states", "transitions") if k in r} | {"emitted": r.get("emitted", 0)})
+        total["violations"].extend(r["violations"])
+        total["tool_errors"].extend(r["tool_errors"])
+        total["replayed"] += r["replayed"]
+        total["replay_execs"] += r["replay_execs"]
+        total["samples"].extend(r["samples"])
+        total["distinct"] += r["distinct"]
+    total["exhaustive"] = bool(runs) and all(r.get("exhaustive") for r in runs)
+    return total
+
+
+if __name__ == "__main__":
+    write_cfgs()
